@@ -4,6 +4,9 @@
 #include <algorithm>
 #include <cstdarg>
 #include <cstdio>
+#include <cstdlib>
+#include <fstream>
+#include <iostream>
 #include <map>
 #include <string>
 #include <set>
@@ -26,6 +29,22 @@ static std::string fmt(const char * f, ...)
   vsnprintf(buf, sizeof buf, f, ap);
   va_end(ap);
   return buf;
+}
+
+// C08 runs part of its workload with every debug/verbosity switch of the library on (they are configuration too).  The library
+// prints through std::cerr/std::clog: those are pointed at /dev/null; sanitizer and libstdc++ reports use fd 2 directly.
+inline bool verif_debug_flags()
+{
+  static int on = -1;
+  if (on < 0) {
+    on = getenv("VERIF_DEBUG_FLAGS") != nullptr ? 1 : 0;
+    if (on) {
+      static std::ofstream devnull("/dev/null");
+      std::cerr.rdbuf(devnull.rdbuf());
+      std::clog.rdbuf(devnull.rdbuf());
+    }
+  }
+  return on == 1;
 }
 
 struct Mismatch
